@@ -11,7 +11,7 @@ NUMS = [b"0", b"1", b"2", b"3", b"9", b"10", b"11", b"20", b"100", b"2147483647"
         b"9223372036854775806"]
 SMALL = [b"0", b"1", b"2", b"3", b"10"]
 LEADZ = [b"00", b"01", b"010", b"007"]
-PRE_WORDS = [b"alpha", b"beta", b"rc", b"a", b"b", b"pre", b"Alpha", b"Beta", b"BETA", b"RC", b"Rc", b"x-y", b"dev", b"SNAPSHOT", b"b2", b"-", b"z", b"Z", b"A"]
+PRE_WORDS = [b"alpha", b"beta", b"rc", b"a", b"b", b"pre", b"Alpha", b"Beta", b"BETA", b"RC", b"Rc", b"x-y", b"dev", b"SNAPSHOT", b"b2", b"-", b"z", b"Z", b"A", b"1a", b"0a", b"2-beta", b"-x", b"--", b"7f3c2e1", b"a1", b"-a"]
 PRE_NUMS = [b"0", b"1", b"2", b"10", b"01", b"00", b"-1", b"+1", b"2147483647", b"2147483648", b"9223372036854775807",
             b"9223372036854775808"]
 BUILD = [b"build", b"001", b"sha.5114f85", b"b-1", b"0"]
@@ -55,7 +55,7 @@ def semver_like(rng, sysi, strict=False):
                 e = pick(rng, PRE_NUMS)
             if strict:
                 # SemVer 2.0: numeric identifiers without leading zeros; no sign forms
-                if e in (b"01", b"00", b"-1", b"+1", b"9223372036854775808", b"9223372036854775807", b"2147483648"):
+                if e in (b"01", b"00", b"+1", b"9223372036854775808", b"9223372036854775807", b"2147483648"):
                     e = b"1"
             elif e == b"+1":
                 e = b"1"
